@@ -658,11 +658,69 @@ fn call_shape_family(rng: &mut Rng, tag: usize) -> Vec<String> {
     forms
 }
 
+/// internal definitions of every spelling - (define v e), (define (h a) ..), (define (h . r) ..),
+/// (define (h a . r) ..) - are local to their activation: a global of the same name is untouched,
+/// two activations have two of them, closures returned from an activation keep theirs
+fn internal_define_family(rng: &mut Rng, tag: usize) -> Vec<String> {
+    let t = tag;
+    let inner = match rng.below(5) {
+        0 => format!("(define (inner{t} . xs) (cons tag xs))"),
+        1 => format!("(define (inner{t} a . xs) (cons tag (cons a xs)))"),
+        2 => format!("(define (inner{t} a) (list tag a))"),
+        3 => format!("(define inner{t} (lambda xs (cons tag xs)))"),
+        _ => format!("(define inner{t} (list tag 'value))"),
+    };
+    let is_value = inner.ends_with("'value))");
+    let use_inner = if is_value { format!("(cons v inner{t})") } else { format!("(inner{t} v)") };
+    let mut forms = vec![
+        format!("(define inner{t} 'global-inner)"),
+        format!("(define (mk{t} tag) {inner} (lambda (v) {use_inner}))"),
+        format!("(define a{t} (mk{t} 'a))"),
+        format!("(define b{t} (mk{t} 'b))"),
+        format!("(list (a{t} 1) (b{t} 2) (a{t} 3))"),
+        format!("inner{t}"),
+    ];
+    // a recursive activation defines its own inner procedure, the outer one keeps its own
+    if !is_value {
+        forms.push(format!(
+            "(define (rec{t} n) {inner2} (if (= n 0) (list (inner{t} n)) (cons (inner{t} n) (append (rec{t} (- n 1)) (list (inner{t} n))))))",
+            inner2 = inner.replace("tag", "n")
+        ));
+        forms.push(format!("(rec{t} 2)"));
+        forms.push(format!("inner{t}"));
+    }
+    forms
+}
+
+/// a variable whose value is a procedure is one mutable location like any other: closures created
+/// in the activation see a later assignment, and assignments through a closure reach the creator
+fn procedure_valued_family(rng: &mut Rng, tag: usize) -> Vec<String> {
+    let t = tag;
+    match rng.below(3) {
+        0 => vec![
+            format!("(define (pv{t}) (define (helper) 'old) (define (user) (helper)) (set! helper (lambda () 'new)) (list (user) (helper)))"),
+            format!("(pv{t})"),
+        ],
+        1 => vec![
+            format!("(define (pv{t} f) (let ((g (lambda () (f))) (put (lambda (h) (set! f h)))) (put (lambda () 'second)) (list (g) (f))))"),
+            format!("(pv{t} (lambda () 'first))"),
+        ],
+        _ => vec![
+            format!("(define (pv{t} f) (define calls '()) (define (call) (set! calls (cons (f) calls))) (call) (set! f (lambda () 'b)) (call) (let ((again (lambda () (f)))) (set! f (lambda () 'c)) (list calls (again))))"),
+            format!("(pv{t} (lambda () 'a))"),
+        ],
+    }
+}
+
 pub fn call_shape_session(rng: &mut Rng) -> Vec<Sx> {
     let n = 1 + rng.usize(3);
     let mut texts = vec![];
     for tag in 0..n {
-        texts.extend(call_shape_family(rng, tag));
+        match rng.below(4) {
+            0 => texts.extend(internal_define_family(rng, tag)),
+            1 => texts.extend(procedure_valued_family(rng, tag)),
+            _ => texts.extend(call_shape_family(rng, tag)),
+        }
     }
     texts.iter().map(|t| crate::sx::read_one(t).unwrap_or_else(|e| panic!("call shape text: {} in {}", e, t))).collect()
 }
